@@ -428,6 +428,9 @@ def check_pipeline(case):
     # the tool holding the source was advanced iff the source was pulled at least once
     advanced = src.pulls > 0 and (case["take"] is None or case["take"] > 0)  # ... and so was the outermost tool
     lends = any(st_[0] == "borrow" for st_ in case["stages"])  # a borrowed source is never owed a close
+    if run_both.info.get("unstarted_stage"):
+        # (e.g. accumulate - partly consumed - handed to a second accumulate that chain([k], ...) never got to)
+        return {"evaluations": 1, "nontrivial": [], "labels": {"unstarted-stage": 1}}
     if case["fl"] in ASYNC_CLOSEABLE and advanced and not lends and not released:
         raise Violation("C04/pipeline/source-not-released", f"stages={case['stages']} take={case['take']} "
                         f"mode={case['mode']} fl={case['fl']}")
